@@ -86,11 +86,12 @@ type c17case struct {
 	SizeOff  int
 	Streamed bool
 	Prefetch int
+	Verify   bool // hash verification of streamed reads (off by default in pkg/fuse, on by default in the CLI)
 }
 
 func c17run(rep *lib.Report, c c17case) {
 	L := 64
-	sizes := []int{0, 1, L + 1, 3 * L}
+	sizes := []int{3 * L, 0, L + 1, 1, L} // exact multiples of the leaf size come first: every tree has one
 	files := map[string][]byte{}
 	for i, p := range c.Paths {
 		files[p] = pattern("pos", sizes[(i+c.SizeOff)%len(sizes)], L)
@@ -98,6 +99,9 @@ func c17run(rep *lib.Report, c c17case) {
 	mode := "streamed"
 	if !c.Streamed {
 		mode = "pre-downloaded"
+	}
+	if c.Verify {
+		mode += "+verify-hash"
 	}
 	rp := map[string]interface{}{"paths": c.Paths, "size_offset": c.SizeOff, "mode": mode, "prefetch": c.Prefetch}
 	desc := fmt.Sprint(rp)
@@ -118,7 +122,7 @@ func c17run(rep *lib.Report, c c17case) {
 	bd := core.NewBundle(core.Repo("r"), core.ContextStores(st), core.ConsumableStore(cons), core.BundleID(b.BundleID), core.Logger(nopLogger))
 	var fs fuseutil.FileSystem
 	guard(rep, "C17|mount|"+mode, func() string { return desc }, rp, func() {
-		ro, err := dfuse.NewReadOnlyFS(bd, dfuse.Logger(nopLogger), dfuse.Streaming(c.Streamed), dfuse.Prefetch(c.Prefetch), dfuse.CacheSize(8*L))
+		ro, err := dfuse.NewReadOnlyFS(bd, dfuse.Logger(nopLogger), dfuse.Streaming(c.Streamed), dfuse.Prefetch(c.Prefetch), dfuse.CacheSize(8*L), dfuse.VerifyHash(c.Verify))
 		if err != nil {
 			rep.Violate("C17|mount-error|"+mode, desc+": "+err.Error(), rp)
 			return
@@ -374,7 +378,7 @@ func TestC17(t *testing.T) {
 	if lib.Thorough() {
 		maxSub = 4
 	}
-	rep.Rule = fmt.Sprintf("trees = all subsets of <=%d of %v, sizes {0,1,L+1,3L} rotated, L=64; both mount modes (streamed with prefetch 0/1; pre-downloaded) built with the real NewReadOnlyFS and driven through fuseutil.FileSystem; per mount the COMPLETE battery: LookUpInode of every (directory, child or absent name), GetInodeAttributes of every inode, OpenDir, ReadDir from every offset, ReadDir with the kernel resume protocol at every buffer size, ReadFile at every offset 0..size+L+1 x 4 lengths; distinct = distinct (tree, mode)", maxSub, c17paths)
+	rep.Rule = fmt.Sprintf("trees = all subsets of <=%d of %v, sizes {3L,0,L+1,1,L} rotated, L=64; both mount modes (streamed with prefetch 0/1, with and without hash verification; pre-downloaded) built with the real NewReadOnlyFS and driven through fuseutil.FileSystem; per mount the COMPLETE battery: LookUpInode of every (directory, child or absent name), GetInodeAttributes of every inode, OpenDir, ReadDir from every offset, ReadDir with the kernel resume protocol at every buffer size, ReadFile at every offset 0..size+L+1 x 4 lengths; distinct = distinct (tree, mode)", maxSub, c17paths)
 	var cases []c17case
 	n := len(c17paths)
 	for mask := 0; mask < 1<<uint(n); mask++ {
@@ -388,12 +392,12 @@ func TestC17(t *testing.T) {
 			continue
 		}
 		for so := 0; so < 2; so++ {
-			if so == 1 && !lib.Thorough() {
+			if so == 1 && !lib.Thorough() && len(s) > 2 {
 				continue
 			}
-			cases = append(cases, c17case{s, so, true, 0}, c17case{s, so, false, 0})
+			cases = append(cases, c17case{s, so, true, 0, false}, c17case{s, so, false, 0, false}, c17case{s, so, true, 0, true})
 			if lib.Thorough() || len(s) <= 2 {
-				cases = append(cases, c17case{s, so, true, 1})
+				cases = append(cases, c17case{s, so, true, 1, false}, c17case{s, so, true, 1, true})
 			}
 		}
 	}
